@@ -77,18 +77,19 @@ Outputs(J) == {<<r, J[r]>> : r \in OutRels}                     \* what printAll
 \* ---- calls that change the object ----------------------------------------
 Insert(r, t) == /\ db' = [db EXCEPT ![r] = @ \cup {t}]
                 /\ UNCHANGED <<prog, exact>>
+\* exact' : evaluating from J gave the model of J's inputs (trivially so when J holds nothing but inputs)
+ExactAfter(J, m) == IF OnlyInputs(J) = J THEN TRUE ELSE m.I = Fresh(J).I
 Run == LET m == Eval(db) IN
        /\ db' = m.I
-       /\ exact' = (m.I = Fresh(db).I)
+       /\ exact' = ExactAfter(db, m)
        /\ UNCHANGED prog
 LoadAll == /\ db' = Loaded(db)
            /\ UNCHANGED <<prog, exact>>
-\* `out` = contents of the output files written by the call
-RunAll(out) == LET m == Eval(Loaded(db)) IN
-               /\ out = Outputs(m.I)
-               /\ db' = Pruned(m.I)
-               /\ exact' = (m.I = Fresh(Loaded(db)).I)
-               /\ UNCHANGED prog
+\* the output files written by the call hold the output relations of the state reached (outputs are never pruned)
+RunAll == LET m == Eval(Loaded(db)) IN
+          /\ db' = Pruned(m.I)
+          /\ exact' = ExactAfter(Loaded(db), m)
+          /\ UNCHANGED prog
 PurgeInputRelations    == db' = Purged(db, InRels)  /\ UNCHANGED <<prog, exact>>
 PurgeOutputRelations   == db' = Purged(db, OutRels) /\ UNCHANGED <<prog, exact>>
 PurgeInternalRelations == db' = Purged(db, IntRels) /\ UNCHANGED <<prog, exact>>
@@ -106,7 +107,7 @@ Init == /\ prog \in 1..Len(Programs)
 Next == \/ \E r \in InRels : \E t \in Univ(r) : Insert(r, t)
         \/ Run
         \/ LoadAll
-        \/ \E out \in {Outputs(Eval(Loaded(db)).I)} : RunAll(out)
+        \/ RunAll
         \/ PurgeInputRelations \/ PurgeOutputRelations \/ PurgeInternalRelations
         \/ \E r \in Rels : \E t \in Probe(r) : \E b \in {t \in db[r]} : Contains(r, t, b)
         \/ \E r \in Rels : \E n \in {Cardinality(db[r])} : Size(r, n)
@@ -119,16 +120,20 @@ Spec == Init /\ [][Next]_vars
 TypeOK == /\ DOMAIN db = Rels
           /\ \A r \in Rels : \A t \in db[r] : Len(t) = D!RelInfo(P, r).arity
           /\ exact \in BOOLEAN
-\* the hand-written programs stay inside the defined value domain
-NoOob == ~Eval(db).o
-\* run() only adds, and a second run() adds nothing
-RunInflationary == \A r \in Rels : db[r] \subseteq Eval(db).I[r]
-RunIdempotent == Eval(Eval(db).I).I = Eval(db).I
-\* API insert + run = the model of the program on those tuples as an EDB (what a file-based run computes)
-FreshIsModel == LET e == [r \in InRels |-> db[r]] IN Fresh(db).I = D!ModelOf(P, e).I
-\* whenever the last evaluation was exact the derived relations are below the model of the inputs of that moment;
-\* purging outputs and internals and running again reproduces the result of an exact run
-PurgeRerunSame ==
-    LET m == Eval(db).I IN
-    (m = Fresh(db).I /\ InRels \cap OutRels = {}) => Eval(Purged(m, OutRels \cup IntRels)).I = m
+\* Laws of the machine, for the evaluation m of the current state (one invariant so that TLC evaluates m once):
+\*  - the hand-written programs stay inside the defined value domain;
+\*  - run() only adds, and a second run() adds nothing;
+\*  - API insert + run on an otherwise empty object = the model of the program with those tuples as the EDB
+\*    (Datalog!ModelOf, what a file-based run computes);
+\*  - after an exact evaluation, purging outputs and internals and running again reproduces the result.
+Laws ==
+    LET m == Eval(db)
+        f == Fresh(db)
+        e == [r \in InRels |-> db[r]]
+    IN /\ ~m.o
+       /\ \A r \in Rels : db[r] \subseteq m.I[r]
+       /\ Eval(m.I).I = m.I
+       /\ f.I = D!ModelOf(P, e).I
+       /\ (m.I = f.I /\ InRels \cap OutRels = {}) => Eval(Purged(m.I, OutRels \cup IntRels)).I = m.I
+       /\ m.I = f.I => Eval(Purged(m.I, IntRels)).I = m.I
 =============================================================================
